@@ -18,7 +18,8 @@ def record(timeout=1500):
     verif = os.path.dirname(os.path.dirname(os.path.abspath(__file__)))
     fd, out = tempfile.mkstemp(prefix='darrtt_', suffix='.ndjson')
     os.close(fd)
-    env = dict(os.environ, DARR_TRACE_OUT=out, PYTHONPATH=repo + os.pathsep + verif, PYTHONHASHSEED='0')
+    scratch = tempfile.mkdtemp(prefix='darrtt_tmp_')      # whatever the tests leave behind goes with it
+    env = dict(os.environ, DARR_TRACE_OUT=out, PYTHONPATH=repo + os.pathsep + verif, PYTHONHASHSEED='0', TMPDIR=scratch)
     try:
         p = subprocess.run([sys.executable, '-W', 'ignore', '-m', 'pytest', '-q', '-p', 'no:cacheprovider',
                             '-p', 'harness.pytest_darrtrace', os.path.join(repo, 'darr')],
@@ -31,6 +32,8 @@ def record(timeout=1500):
         stats['pytest_tail'] = p.stdout.strip().splitlines()[-1] if p.stdout.strip() else ''
         return traces, stats
     finally:
+        import shutil
+        shutil.rmtree(scratch, ignore_errors=True)
         for f in (out, out + '.stats'):
             if os.path.exists(f):
                 os.unlink(f)
